@@ -77,6 +77,8 @@ enum Dest {
     Empty,
     Absent,
     Prepopulated,
+    /// Pre-populated, restored with the overwrite option.
+    PrepopulatedOverwrite,
 }
 
 fn check_outside(sandbox: &Path, before: &Tree, at: &str, site: &str) -> Vec<Violation> {
@@ -115,19 +117,21 @@ pub fn judge(target_idx: &[usize], scratch: &Scratch, n: &AtomicU64) -> Vec<Viol
     let before = outside(&sandbox).expect("observe sandbox");
     for subtree in [None, Some("/sib_dir")] {
         for exclude in [vec![], vec!["/l1".to_string()]] {
-            for dest_state in [Dest::Empty, Dest::Absent, Dest::Prepopulated] {
+            for dest_state in [Dest::Empty, Dest::Absent, Dest::Prepopulated, Dest::PrepopulatedOverwrite] {
                 let dest = sandbox.join("dest");
                 let _ = std::fs::remove_dir_all(&dest);
                 let mut pre_dest = None;
                 match dest_state {
                     Dest::Empty => std::fs::create_dir(&dest).unwrap(),
                     Dest::Absent => {}
-                    Dest::Prepopulated => {
+                    Dest::Prepopulated | Dest::PrepopulatedOverwrite => {
                         let mut t = empty_tree();
                         t.insert("existing".into(), Node::file(b"keep me", 1_444_444_444).with_mode(0o640));
                         t.insert("l0".into(), Node::file(b"not a link", 1_444_444_445));
                         tree::materialize(&t, &dest);
-                        pre_dest = Some(tree::observe(&dest).unwrap());
+                        if dest_state == Dest::Prepopulated {
+                            pre_dest = Some(tree::observe(&dest).unwrap());
+                        }
                     }
                 }
                 // creating / populating dest touched the sandbox root only, which is not compared
@@ -138,7 +142,7 @@ pub fn judge(target_idx: &[usize], scratch: &Scratch, n: &AtomicU64) -> Vec<Viol
                         sel: Sel::Band(0),
                         subtree,
                         exclude: &exclude,
-                        overwrite: false,
+                        overwrite: dest_state == Dest::PrepopulatedOverwrite,
                     },
                     run::NOHOOK,
                     Flavor::Current,
@@ -285,7 +289,7 @@ pub fn run(report: &Report, budget: &Budget) {
                 report.violation(&v, &json!({"kind": "c16", "targets": c}));
             }
             if i % 97 == 13 {
-                report.sample(json!({"symlink_targets": c.iter().map(|x| TARGETS[*x]).collect::<Vec<_>>(), "restores": "subtree in {none,/sib_dir} x exclude in {none,/l1} x destination in {empty,absent,pre-populated}"}));
+                report.sample(json!({"symlink_targets": c.iter().map(|x| TARGETS[*x]).collect::<Vec<_>>(), "restores": "subtree in {none,/sib_dir} x exclude in {none,/l1} x destination in {empty,absent,pre-populated,pre-populated+overwrite}"}));
             }
         }
         scratches[w].clear();
